@@ -194,6 +194,9 @@ func GetRoles(P *Program) *Roles {
 	one := func(role string, pred func(fn *ssa.Function) bool, set []*ssa.Function) *ssa.Function {
 		var found []*ssa.Function
 		for _, fn := range set {
+			if fn.Parent() != nil {
+				continue // closures are part of their enclosing function, never a role of their own
+			}
 			if pred(fn) {
 				found = append(found, fn)
 			}
@@ -213,12 +216,39 @@ func GetRoles(P *Program) *Roles {
 		return nil
 	}
 	hf := R.HandlerFuncs
-	R.TokenExchange = one("TokenExchange", func(fn *ssa.Function) bool { return len(callsTo(fn, fClientDo)) > 0 }, hf)
-	R.Validator = one("IDTokenValidator", func(fn *ssa.Function) bool { return len(callsTo(fn, fJWSVerify)) > 0 }, hf)
-	R.Redirect = one("RedirectHelper", func(fn *ssa.Function) bool {
-		return len(callsTo(fn, idGeneratorIfc+".GenerateSessionID")) > 0
+	retTypes := func(fn *ssa.Function) string {
+		var ts []string
+		res := fn.Signature.Results()
+		for i := 0; i < res.Len(); i++ {
+			ts = append(ts, typeID(res.At(i).Type()))
+		}
+		return strings.Join(ts, ",")
+	}
+	// Each role is recognised by any of several independent structural traits, so that removing one
+	// call (a realistic defect) does not make the role — and with it every property — unresolvable.
+	R.TokenExchange = one("TokenExchange", func(fn *ssa.Function) bool {
+		return len(callsTo(fn, fClientDo)) > 0 || retTypes(fn) == pkgAuthz+".idpTokensResponse,"+pkgCodes+".Code"
 	}, hf)
-	R.Callback = one("CallbackHelper", func(fn *ssa.Function) bool { return len(callsTo(fn, mClearState)) > 0 }, hf)
+	R.Validator = one("IDTokenValidator", func(fn *ssa.Function) bool {
+		return len(callsTo(fn, fJWSVerify)) > 0 || (retTypes(fn) == "bool,"+pkgCodes+".Code" && recvNamed(fn) == R.OIDCType)
+	}, hf)
+	R.Redirect = one("RedirectHelper", func(fn *ssa.Function) bool {
+		return len(callsTo(fn, idGeneratorIfc+".GenerateSessionID")) > 0 || len(callsTo(fn, mSetState)) > 0
+	}, hf)
+	R.Callback = one("CallbackHelper", func(fn *ssa.Function) bool {
+		if len(callsTo(fn, mClearState)) > 0 {
+			return true
+		}
+		// performs a token exchange but does not hand tokens back (the refresh helper does)
+		if R.TokenExchange != nil && fn != R.TokenExchange && fn.Signature.Results().Len() == 0 {
+			for _, c := range allCalls(fn) {
+				if c.Common().StaticCallee() == R.TokenExchange {
+					return true
+				}
+			}
+		}
+		return false
+	}, hf)
 	R.Refresh = one("RefreshHelper", func(fn *ssa.Function) bool {
 		res := fn.Signature.Results()
 		if res.Len() != 1 || typeID(res.At(0).Type()) != idTokenResponse || R.TokenExchange == nil {
